@@ -167,7 +167,7 @@ def check_key_fns(ctx, model):
             det = "sort precedes concat: %s; concatenated elements indexed %s from the sorted vector: %s" % (cb in v.reach_strict(sb), sorted(idxs), from_sorted)
         ctx.ob("C19-R1", "%s|sorted-then-concatenated" % p, ok, det or "sort calls: %d, concat calls: %d" % (len(sorts), len(concats)), v.where())
         # comparator compares as_bytes of both sides
-        for q in [x for x in model.fnsrc if x.startswith(p + "::{closure")]:
+        for q in model.closures_of(p):
             cv = model.view(q)
             ab = cv.calls_to(r"AssetInfoRaw::as_bytes$")
             cm = cv.calls_to(r"as std::cmp::Ord>::cmp$")
